@@ -90,6 +90,7 @@ func (dr *DocumentRef) ValidateWithContext(ctx context.Context) error {
 			validation.Required,
 		),
 		validation.Field(&dr.Currency),
+		validation.Field(&dr.Identities),
 		validation.Field(&dr.URL, is.URL),
 		validation.Field(&dr.Stamps),
 		validation.Field(&dr.Period),
